@@ -58,11 +58,14 @@ AlphaAbstractF == AlphaOf([Query |-> {"p", "np", "lp", "lu"}, P |-> {"s"}, A |->
 AlphaPairs == AlphaOf([Query |-> {"o", "on", "s"}, T |-> {"s", "sn"}])
 AlphaMutF == AlphaOf([Mutation |-> {"m1", "m2", "m3", "m4"}, T |-> {"sn"}])
 AlphaArgsF == AlphaOf([Query |-> {"g", "o", "on"}, T |-> {"g", "s"}])
-AlphaGdF == AlphaOf([Query |-> {"gd", "gd2", "on"}, T |-> {"s"}])
+AlphaGdF == AlphaOf([Query |-> {"gd", "gd2", "h", "on"}, T |-> {"s"}])
 \* a nullable variable with a default is allowed at a non-null argument; an explicit null then
 \* fails the argument coercion of that field at run time
 ArgOptsFail == [ f |-> {<<>>}, g |-> {<<ArgV("r", Lit("var", "y"))>>, <<ArgV("r", Lit("int", 2))>>},
                  gd2 |-> {<<>>, <<ArgV("a", Lit("int", 1))>>},
+                 h |-> {<<ArgV("i", [t |-> "obj", v |-> << <<"r", Lit("int", 1)>>, <<"q", Lit("int", 13)>> >>])>>,
+                        <<ArgV("i", [t |-> "obj", v |-> << <<"r", Lit("int", 1)>>, <<"q", Lit("int", 1)>> >>])>>,
+                        <<ArgV("i", [t |-> "obj", v |-> << <<"r", Lit("int", 1)>>, <<"n", [t |-> "obj", v |-> << <<"r", Lit("int", 2)>>, <<"q", Lit("int", 13)>> >>]>> >>])>>},
                  gd |-> {<<ArgV("a", Lit("int", 13))>>, <<ArgV("a", Lit("int", 1))>>, <<ArgV("b", Lit("str", "q")), ArgV("a", Lit("int", 13))>>} ]
 AlphaSched == AlphaOf([Query |-> {"o", "lo", "s"}, T |-> {"s", "o"}])
 AlphaSchedF == AlphaOf([Query |-> {"o", "on", "lnn", "s"}, T |-> {"s", "sn"}])
